@@ -338,10 +338,13 @@ func dispatch(input io.Reader, logPath string, workerArgs []string, nworkers, ba
 						merge(r1)
 						continue
 					}
-					// reproduce alone once more
-					q2, _ := startProc(workerArgs)
-					_, e2 := q2.runBatch([][]byte{line}, 20*time.Second)
-					q2.kill()
+					// reproduce alone: up to three more runs, one more failure is enough
+					var e2 error
+					for try := 0; try < 3 && e2 == nil; try++ {
+						q2, _ := startProc(workerArgs)
+						_, e2 = q2.runBatch([][]byte{line}, 20*time.Second)
+						q2.kill()
+					}
 					mu.Lock()
 					if e2 != nil {
 						sum.Crashes++
